@@ -37,7 +37,7 @@ def includes_in_place(ctx, recs, failures):
     out = C.run_impl(ctx, "include", [json.dumps({k: v for k, v in c.items() if k != "root"}) for c in cases], tag="c06inc")
     spl, idx = [], []
     for i, c in enumerate(cases):
-        if "if (true)" in c["main"]:
+        if c18.NESTED_INC.search(c["main"]):
             continue
         t = c18.splice(c, c["main"])
         if t is not None:
